@@ -64,6 +64,16 @@ def run(idx, rep, tier):
     from . import c08
     c08.byline_keep(idx, rep, "R4")
     c08.byline_norun(idx, rep, "R5")
+    # … and in a serial run: what a member kept is archived with its result however the member's run ended
+    from . import c09, c12, c13
+    c09.serial_unmatched(idx, rep, "R4")
+    # the complement is taken over every scanned record: only the empty record [] at the end of the file is the 'blank last line' that is
+    # returned by neither mode; a record of one empty or white-space cell is a line like any other
+    c13.r4(idx, K.as_rule(rep, "R3", keep=lambda k: "is_last_line_and_blank" in k))
+    # the comment that counts for a member run by identity (name#id, $name.csvpaths.id) is the one registered last under that name
+    n, msg = c12.run_sequences(idx, 0, extra=((("add", "g", "G1"), ("add", "g", "G2")), (("add", "g", "G2"), ("read",), ("add", "g", "G5")), (("add", "g", "G1"), ("read",), ("add", "g", "G3"))))
+    rep.check(msg is None, "R6", "csvpath/managers/paths/paths_manager.py::a member selected by identity is the csvpath (and comment) registered last", msg or f"{n} operation sequences",
+              "csvpath/managers/paths/paths_manager.py")
     rep.stats["exhaustive"] = True
 
 
